@@ -460,12 +460,18 @@ Section CrashProofs.
     s_run (run_side ms s) = s_run s /\ s_log (run_side ms s) = s_log s /\
     forall x, t_mem ts x = false -> t_mem (s_pend (run_side ms s)) x = t_mem (s_pend s) x.
   Proof.
-    induction ms as [|m ms IH]; intros s H; simpl; [auto|].
-    simpl in H. apply andb_true_iff in H as [H1 H2]. unfold run_side in *. simpl.
+    induction ms as [|m ms IH]; intros s H; [simpl; auto|].
+    cbn [forallb] in H. apply andb_true_iff in H as [H1 H2].
+    change (run_side (m :: ms) s) with (run_side ms (apply_side s m)).
     destruct (IH (apply_side s m) H2) as [A [B C]]. rewrite A, B.
-    unfold apply_side. destruct m; simpl in *; try discriminate; split; auto; split; auto; intros x Hx; rewrite C by assumption; simpl.
-    - rewrite t_mem_del. destruct (task_eqb x t) eqn:E; [apply task_eqb_eq in E; subst x; rewrite H1 in Hx; discriminate|apply andb_true_r].
-    - rewrite t_mem_put. destruct (task_eqb x t) eqn:E; [apply task_eqb_eq in E; subst x; rewrite H1 in Hx; discriminate|reflexivity].
+    assert (K : s_run (apply_side s m) = s_run s /\ s_log (apply_side s m) = s_log s /\
+                forall x, t_mem ts x = false -> t_mem (s_pend (apply_side s m)) x = t_mem (s_pend s) x).
+    { unfold apply_side. destruct m; cbn [names_in] in H1; try discriminate;
+        cbn [Crash.apply_mut Crash.with_queue Crash.s_run Crash.s_log Crash.s_pend]; (split; [reflexivity|split; [reflexivity|]]); intros x Hx.
+      - reflexivity.
+      - rewrite t_mem_del. destruct (task_eqb x t) eqn:E; [apply task_eqb_eq in E; subst x; rewrite H1 in Hx; discriminate|apply andb_true_r].
+      - rewrite t_mem_put. destruct (task_eqb x t) eqn:E; [apply task_eqb_eq in E; subst x; rewrite H1 in Hx; discriminate|reflexivity]. }
+    destruct K as [K1 [K2 K3]]. split; [exact K1|]. split; [exact K2|]. intros x Hx. rewrite C by assumption. apply K3. assumption.
   Qed.
 
   Lemma side_objs s o' evs n : s_objs (run_side (firstn n (side_effects s o' evs)) s) = match n with O => s_objs s | _ => o' end.
@@ -535,6 +541,14 @@ Section CrashProofs.
     replace (length ms + 1 - length ms)%nat with 1%nat by lia. reflexivity.
   Qed.
 
+  Lemma run_all_side_app b ms rest s : forallb is_side ms = true ->
+    run_all (map (Mut S Ev Ob b) ms ++ rest) s = run_all rest (run_side ms s).
+  Proof.
+    intros H. unfold Crash.run_all. rewrite run_cut_side_app by assumption. rewrite app_length, map_length.
+    replace (length ms + length rest <? length ms)%nat with false by (symmetry; apply Nat.ltb_ge; lia).
+    replace (length ms + length rest - length ms)%nat with (length rest) by lia. reflexivity.
+  Qed.
+
   Lemma complete_command s evs o' : wf s -> listen (s_objs s) evs = Some o' ->
     exists s1, complete (OCommand evs) s = Some s1 /\
       cmds (s_log s1) = cmds (s_log s) ++ [SEvents evs] /\ snap S Ev (s_log s1) = snap S Ev (s_log s) /\
@@ -543,14 +557,11 @@ Section CrashProofs.
       (forall x, t_mem (s_pend s1) x = t_mem (s_pend s) x || t_mem (pre_tasks evs) x || t_mem (post_tasks evs) x) /\
       (forall x, t_mem (s_run s1) x = t_mem (s_run s) x && negb (t_mem (post_tasks evs) x)).
   Proof.
-    intros W L. unfold Crash.complete, Crash.run_all. cbn [Crash.steps_of]. rewrite L.
+    intros W L. unfold Crash.complete. cbn [Crash.steps_of]. rewrite L.
     set (side := side_effects s o' evs).
     set (post := sched_fin_all (snd (sched_all (s_pend s) (pre_tasks evs))) (s_run s) (post_tasks evs)).
     set (a' := apply_stored S Ev apply (load (s_log s)) (SEvents evs)).
-    rewrite run_cut_side_app by apply side_effects_side.
-    rewrite !app_length, !map_length. fold side. simpl length.
-    replace (length side + (1 + (length post + 1)) <? length side)%nat with false by (symmetry; apply Nat.ltb_ge; lia).
-    replace (length side + (1 + (length post + 1)) - length side)%nat with (Datatypes.S (length post + 1)) by lia.
+    rewrite run_all_side_app by apply side_effects_side.
     set (s0 := run_side side s).
     assert (S0 : s_objs s0 = o' /\ s_log s0 = s_log s /\ s_pend s0 = snd (sched_all (s_pend s) (pre_tasks evs)) /\ s_run s0 = s_run s).
     { unfold s0, side, Crash.side_effects, run_side. simpl fold_left.
@@ -559,14 +570,12 @@ Section CrashProofs.
       destruct (run_sched_all (pre_tasks evs) (s_pend s) (apply_side s (MObjs o')) eq_refl) as [C D].
       rewrite A, B, C, D. auto. }
     destruct S0 as [O0 [L0 [P0 R0]]].
-    cbn [Crash.run_cut app]. unfold Crash.apply_mut. rewrite L0.
+    unfold Crash.run_all. cbn [app length Crash.run_cut]. unfold Crash.apply_mut. rewrite L0.
     rewrite (load_ver (s_log s) W), N.eqb_refl.
     set (s1 := with_log S Ev Ob s0 (mkStore S Ev (cmds (s_log s) ++ [SEvents evs]) (snap S Ev (s_log s)) (cache S Ev (s_log s)))).
-    fold (Crash.run_all S Ev Ob (map (Mut S Ev Ob false) post ++ [CacheSet S Ev Ob a']) s1) .
-    change (Crash.run_cut S Ev Ob (length post + 1) (map (Mut S Ev Ob false) post ++ [CacheSet S Ev Ob a']) s1)
-      with (Crash.run_cut S Ev Ob (length post + 1) (map (Mut S Ev Ob false) post ++ [CacheSet S Ev Ob a']) s1).
-    assert (RA : run_cut (length post + 1) (map (Mut S Ev Ob false) post ++ [CacheSet S Ev Ob a']) s1 = Some (set_cache S Ev Ob (run_side post s1) a')).
-    { rewrite <- (run_all_side_cache post a' s1) by apply sched_fin_all_side. unfold Crash.run_all. rewrite app_length, map_length. reflexivity. }
+    fold (Crash.run_all S Ev Ob (map (Mut S Ev Ob false) post ++ [CacheSet S Ev Ob a']) s1).
+    assert (RA : run_all (map (Mut S Ev Ob false) post ++ [CacheSet S Ev Ob a']) s1 = Some (set_cache S Ev Ob (run_side post s1) a')).
+    { apply run_all_side_cache. apply sched_fin_all_side. }
     rewrite RA. eexists. split; [reflexivity|].
     destruct (run_tasks_objs post s1 (sched_fin_all_tasks _ _ _)) as [A B].
     destruct (run_sched_fin_all (post_tasks evs) (snd (sched_all (s_pend s) (pre_tasks evs))) (s_run s) s1 P0 R0) as [C D].
@@ -594,4 +603,402 @@ Section CrashProofs.
     - rewrite Hk, H1, <- app_assoc. rewrite nth_error_app2 by lia. rewrite Nat.sub_diag. reflexivity.
     - unfold recover. rewrite (load_is_replay S Ev init apply _ (crash_wf sN WN)). reflexivity.
   Qed.
+
+  Definition names_in_fin (ts : list task) (m : mutation) : bool :=
+    match m with MTaskDel u | MTaskPut u | MTaskFinish u => t_mem ts u | _ => false end.
+
+  Lemma sched_fin_all_names ts' ts : (forall u, t_mem ts u = true -> t_mem ts' u = true) ->
+    forall p r, forallb (names_in_fin ts') (sched_fin_all p r ts) = true.
+  Proof.
+    induction ts as [|t ts IH]; intros H p r; simpl; [reflexivity|].
+    assert (Ht : t_mem ts' t = true). { apply H. simpl. rewrite task_eqb_refl. reflexivity. }
+    assert (H' : forall u, t_mem ts u = true -> t_mem ts' u = true). { intros u Hu. apply H. simpl. rewrite Hu. apply orb_true_r. }
+    rewrite !forallb_app, (IH H'). destruct (t_mem r t), (t_mem p t); simpl; rewrite ?Ht; reflexivity.
+  Qed.
+
+  Lemma pend_untouched_fin ts ms : forall s, forallb (names_in_fin ts) ms = true ->
+    forall x, t_mem ts x = false -> t_mem (s_pend (run_side ms s)) x = t_mem (s_pend s) x.
+  Proof.
+    induction ms as [|m ms IH]; intros s H; [simpl; auto|].
+    cbn [forallb] in H. apply andb_true_iff in H as [H1 H2].
+    change (run_side (m :: ms) s) with (run_side ms (apply_side s m)).
+    intros x Hx. rewrite (IH (apply_side s m) H2 x Hx).
+    unfold apply_side. destruct m; cbn [names_in_fin] in H1; try discriminate;
+      cbn [Crash.apply_mut Crash.with_queue Crash.s_pend].
+    - rewrite t_mem_del. destruct (task_eqb x t) eqn:E; [apply task_eqb_eq in E; subst x; rewrite H1 in Hx; discriminate|apply andb_true_r].
+    - rewrite t_mem_put. destruct (task_eqb x t) eqn:E; [apply task_eqb_eq in E; subst x; rewrite H1 in Hx; discriminate|reflexivity].
+    - reflexivity.
+  Qed.
+
+  (** ** Cuts and failing writes after the command store *)
+  Lemma cut_after_store s evs o' n s' : wf s -> listen (s_objs s) evs = Some o' -> (cmd_index s evs < n)%nat ->
+    run_cut n (steps_of s (OCommand evs)) s = Some s' ->
+    cmds (s_log s') = cmds (s_log s) ++ [SEvents evs] /\ snap S Ev (s_log s') = snap S Ev (s_log s) /\ s_objs s' = o' /\
+    (forall t, t_mem (pre_tasks evs) t = true -> t_mem (post_tasks evs) t = false -> t_mem (s_pend s') t = true).
+  Proof.
+    intros W L Hn. rewrite (cmd_index_len s o' evs) in Hn. cbn [Crash.steps_of]. rewrite L.
+    set (side := side_effects s o' evs) in *.
+    set (post := sched_fin_all (snd (sched_all (s_pend s) (pre_tasks evs))) (s_run s) (post_tasks evs)).
+    set (a' := apply_stored S Ev apply (load (s_log s)) (SEvents evs)).
+    rewrite run_cut_side_app by apply side_effects_side. fold side.
+    replace (n <? length side)%nat with false by (symmetry; apply Nat.ltb_ge; lia).
+    destruct (n - length side)%nat as [|m] eqn:En; [lia|].
+    set (s0 := run_side side s).
+    assert (S0 : s_objs s0 = o' /\ s_log s0 = s_log s /\ s_pend s0 = snd (sched_all (s_pend s) (pre_tasks evs)) /\ s_run s0 = s_run s).
+    { unfold s0, side, Crash.side_effects, run_side. simpl fold_left.
+      fold (run_side (fst (sched_all (s_pend s) (pre_tasks evs))) (apply_side s (MObjs o'))).
+      destruct (run_tasks_objs (fst (sched_all (s_pend s) (pre_tasks evs))) (apply_side s (MObjs o')) (sched_all_tasks _ _)) as [A B].
+      destruct (run_sched_all (pre_tasks evs) (s_pend s) (apply_side s (MObjs o')) eq_refl) as [C D].
+      rewrite A, B, C, D. auto. }
+    destruct S0 as [O0 [L0 [P0 R0]]].
+    cbn [app Crash.run_cut]. unfold Crash.apply_mut. rewrite L0. rewrite (load_ver (s_log s) W), N.eqb_refl.
+    set (s1 := with_log S Ev Ob s0 (mkStore S Ev (cmds (s_log s) ++ [SEvents evs]) (snap S Ev (s_log s)) (cache S Ev (s_log s)))).
+    rewrite run_cut_side_app by apply sched_fin_all_side.
+    assert (Hnames : forall k, forallb (names_in_fin (post_tasks evs)) (firstn k post) = true).
+    { intros k. apply firstn_forallb. apply sched_fin_all_names. auto. }
+    assert (Pend1 : forall t, t_mem (pre_tasks evs) t = true -> t_mem (s_pend s1) t = true).
+    { intros t Ht. unfold s1. simpl. rewrite P0, sched_all_mem, Ht. apply orb_true_r. }
+    destruct (m <? length post)%nat eqn:Em.
+    - intros E. injection E as E. subst s'. destruct (run_tasks_objs (firstn m post) s1 (firstn_forallb _ _ _ (sched_fin_all_tasks _ _ _))) as [A B].
+      rewrite B, A. simpl. split; [reflexivity|]. split; [reflexivity|]. split; [exact O0|].
+      intros t Ht Hp. rewrite (pend_untouched_fin (post_tasks evs) (firstn m post) s1 (Hnames m)) by assumption. apply Pend1. assumption.
+    - assert (Hall : forallb (names_in_fin (post_tasks evs)) post = true). { rewrite <- (firstn_all post). apply Hnames. }
+      destruct (m - length post)%nat; cbn [Crash.run_cut]; intros E; injection E as E; subst s';
+        destruct (run_tasks_objs post s1 (sched_fin_all_tasks _ _ _)) as [A B]; simpl; rewrite B, A; simpl;
+        (split; [reflexivity|]; split; [reflexivity|]; split; [exact O0|]);
+        intros t Ht Hp; rewrite (pend_untouched_fin (post_tasks evs) post s1 Hall) by assumption; apply Pend1; assumption.
+  Qed.
+
+  Lemma fail_besteffort_cache ms a : forall m s1, forallb is_task ms = true ->
+    exists s2, fail_at m (map (Mut S Ev Ob false) ms ++ [CacheSet S Ev Ob a]) s1 = Some s2 /\
+      s_log s2 = with_cache (s_log s1) a /\ s_objs s2 = s_objs s1.
+  Proof.
+    induction ms as [|x ms IH]; intros m s1 H.
+    - exists (set_cache S Ev Ob s1 a). simpl. auto.
+    - cbn [forallb] in H. apply andb_true_iff in H as [H1 H2]. cbn [map app]. destruct m as [|m].
+      + cbn [Crash.fail_at]. rewrite run_all_side_cache by (apply (forallb_impl is_task); [apply is_task_side|assumption]).
+        eexists. split; [reflexivity|]. destruct (run_tasks_objs ms s1 H2) as [A B]. simpl. rewrite B, A. auto.
+      + cbn [Crash.fail_at]. rewrite (side_some s1 x (is_task_side x H1)).
+        destruct (IH m (apply_side s1 x) H2) as [s2 [E [A B]]]. exists s2. split; [exact E|].
+        destruct (task_objs s1 x H1) as [C D]. rewrite A, B, C, D. auto.
+  Qed.
+
+  (** C08: with one failing write the log and the in-memory state move together: either the whole stored
+      aggregate is as before, or the command is stored AND cached (the failing write was a best-effort
+      post-save task write). *)
+  Theorem failed_write_log_and_cache_atomic : forall s evs o' n s', wf s -> listen (s_objs s) evs = Some o' ->
+    fail_at n (steps_of s (OCommand evs)) s = Some s' ->
+    s_log s' = s_log s
+    \/ (cmds (s_log s') = cmds (s_log s) ++ [SEvents evs] /\
+        cache S Ev (s_log s') = Some (replay (cmds (s_log s) ++ [SEvents evs])) /\ s_objs s' = o').
+  Proof.
+    intros s evs o' n s' W L F. destruct (le_lt_dec n (cmd_index s evs)) as [Hn|Hn].
+    - left. destruct (failed_write_invisible s evs o' n W L Hn) as [s2 [E [_ [B _]]]]. rewrite F in E. inv E. exact B.
+    - right. rewrite (cmd_index_len s o' evs) in Hn. revert F. cbn [Crash.steps_of]. rewrite L.
+      set (side := side_effects s o' evs) in *.
+      set (post := sched_fin_all (snd (sched_all (s_pend s) (pre_tasks evs))) (s_run s) (post_tasks evs)).
+      set (a' := apply_stored S Ev apply (load (s_log s)) (SEvents evs)).
+      rewrite fail_at_side_app by apply side_effects_side. fold side.
+      replace (n <? length side)%nat with false by (symmetry; apply Nat.ltb_ge; lia).
+      destruct (n - length side)%nat as [|m] eqn:En; [lia|].
+      set (s0 := run_side side s).
+      assert (S0 : s_objs s0 = o' /\ s_log s0 = s_log s).
+      { unfold s0, side, Crash.side_effects, run_side. simpl fold_left.
+        fold (run_side (fst (sched_all (s_pend s) (pre_tasks evs))) (apply_side s (MObjs o'))).
+        destruct (run_tasks_objs (fst (sched_all (s_pend s) (pre_tasks evs))) (apply_side s (MObjs o')) (sched_all_tasks _ _)) as [A B].
+        rewrite A, B. auto. }
+      destruct S0 as [O0 L0].
+      cbn [app Crash.fail_at]. unfold Crash.apply_mut. rewrite L0. rewrite (load_ver (s_log s) W), N.eqb_refl.
+      set (s1 := with_log S Ev Ob s0 (mkStore S Ev (cmds (s_log s) ++ [SEvents evs]) (snap S Ev (s_log s)) (cache S Ev (s_log s)))).
+      destruct (fail_besteffort_cache post a' m s1 (sched_fin_all_tasks _ _ _)) as [s2 [E [A B]]].
+      rewrite E. intros F. injection F as F. subst s'. rewrite A, B. simpl. split; [reflexivity|]. split; [|exact O0].
+      unfold a'. rewrite (load_is_replay S Ev init apply (s_log s) W). rewrite <- replay_snoc. reflexivity.
+  Qed.
+
+  (** ** The atomicity clause outside the known window *)
+  Definition Known (s : sys) (evs : list Ev) (n : nat) : Prop := (1 <= n <= cmd_index s evs)%nat.
+
+  Theorem atomic_alike_except_known : forall s evs o' n s', wf s -> listen (s_objs s) evs = Some o' ->
+    run_cut n (steps_of s (OCommand evs)) s = Some s' -> ~ Known s evs n ->
+    (cmds (s_log (crash s')) = cmds (s_log s) /\ s_objs s' = s_objs s /\ s_pend s' = s_pend s)
+    \/ (cmds (s_log (crash s')) = cmds (s_log s) ++ [SEvents evs] /\ s_objs s' = o').
+  Proof.
+    intros s evs o' n s' W L R K. unfold Known in K. destruct n as [|n].
+    - left. rewrite (cut_before_store s evs o' 0 L) in R by lia. inv R. auto.
+    - right. assert (Hn : (cmd_index s evs < Datatypes.S n)%nat) by lia.
+      destruct (cut_after_store s evs o' _ s' W L Hn R) as [A [_ [B _]]]. simpl. auto.
+  Qed.
+
+  (** The strongest statement that holds at EVERY cut: the audit log (commands and snapshot) is all-or-nothing
+      and a surviving process' cache is untouched before the command store; the published-object store and the
+      task queue may be ahead of the log by exactly the interrupted command - the listener's output for it and
+      entries for the tasks its events schedule, nothing else. *)
+  Theorem log_all_or_nothing_objects_may_lead : forall s evs o' n s', wf s -> listen (s_objs s) evs = Some o' ->
+    run_cut n (steps_of s (OCommand evs)) s = Some s' ->
+    ((n <= cmd_index s evs)%nat /\ s_log s' = s_log s /\ s_objs s' = match n with O => s_objs s | _ => o' end /\
+       s_run s' = s_run s /\ (forall t, t_mem (pre_tasks evs) t = false -> t_mem (s_pend s') t = t_mem (s_pend s) t))
+    \/ ((cmd_index s evs < n)%nat /\ cmds (s_log s') = cmds (s_log s) ++ [SEvents evs] /\
+        snap S Ev (s_log s') = snap S Ev (s_log s) /\ s_objs s' = o' /\
+        (forall t, t_mem (pre_tasks evs) t = true -> t_mem (post_tasks evs) t = false -> t_mem (s_pend s') t = true)).
+  Proof.
+    intros s evs o' n s' W L R. destruct (le_lt_dec n (cmd_index s evs)) as [Hn|Hn].
+    - left. split; [exact Hn|]. rewrite (cut_equals_failed_write s evs o' n L Hn) in R.
+      destruct (failed_write_invisible s evs o' n W L Hn) as [s2 [E [_ [B [_ [C [D F]]]]]]]. rewrite R in E. inv E. auto.
+    - right. split; [exact Hn|]. apply (cut_after_store s evs o' n s' W L Hn R).
+  Qed.
+
+  (** ** Resubmission *)
+  Variable V : Type.
+  Variable obs : Ob -> V.                     (* the observable content of the published-object store *)
+
+  Theorem converges_after_resubmit : forall s evs o' o2 n s' sr,
+    wf s -> listen (s_objs s) evs = Some o' ->
+    (* the listener accepts the same events on its own output, with the same observable content *)
+    listen o' evs = Some o2 -> obs o2 = obs o' ->
+    (n <= cmd_index s evs)%nat ->
+    (run_cut n (steps_of s (OCommand evs)) s = Some s' \/ fail_at n (steps_of s (OCommand evs)) s = Some s') ->
+    (sr = s' \/ sr = crash s') ->
+    exists s2 twin, resubmit S Ev init apply Ob listen pre_tasks post_tasks (OCommand evs) sr = Some s2 /\
+      complete (OCommand evs) s = Some twin /\
+      cmds (s_log s2) = cmds (s_log twin) /\ snap S Ev (s_log s2) = snap S Ev (s_log twin) /\
+      cache S Ev (s_log s2) = cache S Ev (s_log twin) /\
+      obs (s_objs s2) = obs (s_objs twin) /\
+      tset_eq (s_pend s2) (s_pend twin) /\ tset_eq (s_run s2) (s_run twin).
+  Proof.
+    intros s evs o' o2 n s' sr W L L2 Hobs Hn Hcut Hsr.
+    assert (E' : s' = run_side (firstn n (side_effects s o' evs)) s).
+    { destruct Hcut as [R|R]; [rewrite (cut_before_store s evs o' n L Hn) in R|rewrite (fail_before_store s evs o' n L Hn) in R]; inv R; reflexivity. }
+    destruct (failed_write_invisible s evs o' n W L Hn) as [s2' [_ [E2 [B [_ [C [D F]]]]]]]. rewrite <- E' in E2. subst s2'.
+    assert (Wsr : wf sr /\ cmds (s_log sr) = cmds (s_log s) /\ snap S Ev (s_log sr) = snap S Ev (s_log s)
+                  /\ s_objs sr = s_objs s' /\ s_pend sr = s_pend s' /\ s_run sr = s_run s').
+    { destruct Hsr as [->| ->].
+      - split; [unfold wf; rewrite B; exact W|]. rewrite B. repeat split; reflexivity.
+      - split; [apply crash_wf; unfold wf; rewrite B; exact W|]. simpl. rewrite B. repeat split; reflexivity. }
+    destruct Wsr as [Wsr [Cs [Ss [Os [Ps Rs]]]]].
+    assert (Lsr : exists oR, listen (s_objs sr) evs = Some oR /\ obs oR = obs o').
+    { rewrite Os, C. destruct n; [exists o'; auto|exists o2; auto]. }
+    destruct Lsr as [oR [Lsr HoR]].
+    destruct (complete_command sr evs oR Wsr Lsr) as [s2 [C2 [H1 [H2 [H3 [H4 [H5 H6]]]]]]].
+    destruct (complete_command s evs o' W L) as [tw [Ct [T1 [T2 [T3 [T4 [T5 T6]]]]]]].
+    exists s2, tw. split; [exact C2|]. split; [exact Ct|].
+    split; [rewrite H1, T1, Cs; reflexivity|]. split; [rewrite H2, T2, Ss; reflexivity|].
+    split; [rewrite H3, T3, Cs; reflexivity|]. split; [rewrite H4, T4; exact HoR|]. split.
+    - intros t. rewrite H5, T5, Ps. destruct (t_mem (pre_tasks evs) t) eqn:Et; [rewrite !orb_true_r; reflexivity|].
+      rewrite (F t Et). reflexivity.
+    - intros t. rewrite H6, T6, Rs, D. reflexivity.
+  Qed.
 End CrashProofs.
+
+(** * The CA instance: events, [apply] and the pre-save listener of ca/Ca.v *)
+Definition ca_state : Type := option ca.
+Definition ca_apply (s : ca_state) (e : event) : ca_state := match s with Some c => Ca.apply c e | None => None end.
+Definition ca_listen (env : env) (cn : N -> N) (o : objects) (evs : list event) : option objects :=
+  match listener env cn o evs with Ok o' => Some o' | Err => None end.
+(** mq.rs:441-560 schedule_for_ca_event / 597-628 post-save, for the modelled events of CA [me]. *)
+Definition ca_pre (me : N) (evs : list event) : list task :=
+  flat_map (fun e => match e with
+    | EObjectsUpdated _ _ _ _ | EChildCertsUpdated _ _ _ _ _ | EChildKeyRevoked _ _ _
+    | EPendingToNew _ _ | EPendingToActive _ _ | ERollFinished _ | EParentRemoved _ | EClassRemoved _ => [(SYNC_REPO, me)]
+    | ERollActivated _ => [(SYNC_PARENT, me); (SYNC_REPO, me)]
+    | ECertRequested _ _ | EParentAdded _ => [(SYNC_PARENT, me)]
+    | _ => []
+    end) evs.
+Definition ca_post (evs : list event) : list task :=
+  flat_map (fun e => match e with EChildKeyRevoked h _ _ | EChildUpdated h => [(SYNC_PARENT, h)] | _ => [] end) evs.
+
+Definition names_of (o : objects) : list (N * list N) := map (fun '(c, k) => (c, map fst (s_pub (ok_current k)))) o.
+
+Module Witness.
+  Definition env0 := mkEnv 1000%Z 0%Z 90000%Z.
+  Definition cn (k : N) : N := k + 1000.
+  (** CA 2 ("b") with one class under an active key 1; nothing published yet. *)
+  Definition ca0 : ca :=
+    mkCA [(0, mkRC 1 0 (KActive (mkCK 1 (mkCert 1 15 50) false)) [] [] [] [] [])] [1] [] 1.
+  Definition objs0 : objects := [(0, OCur (os_create 1 90000%Z))].
+  Definition roa : obj := mkObj 7 100 500000%Z.
+  Definition evs : list event := [EObjectsUpdated 0 KRoa [(7, roa)] []].
+  Definition s0 : sys ca_state event objects := mkSys ca_state event objects (empty_store ca_state event) objs0 [(SYNC_PARENT, 2)] [].
+  Definition steps := steps_of ca_state event (Some ca0) ca_apply objects (ca_listen env0 cn) (ca_pre 2) ca_post s0 (OCommand evs).
+  Definition cut n := run_cut ca_state event objects n steps s0.
+  Definition objs1 : objects := match ca_listen env0 cn objs0 evs with Some o => o | None => [] end.
+
+  (** Key roll: the class is staged (new key 2 certified), activation is requested. *)
+  Definition objs_stg : objects := [(0, OStg (os_create 2 90000%Z) (os_create 1 90000%Z))].
+  Definition evs_act : list event := [ERollActivated 0].
+  Definition ca_roll : ca :=
+    mkCA [(0, mkRC 1 0 (KRollNew (mkCK 2 (mkCert 2 15 51) false) (mkCK 1 (mkCert 1 15 50) false)) [] [] [] [] [])] [1] [] 1.
+  Definition s_roll : sys ca_state event objects := mkSys ca_state event objects (empty_store ca_state event) objs_stg [] [].
+  (** Parent CA 1 changes the entitlement of its child 2; the child's recurring parent sync is queued. *)
+  Definition ca_par : ca := mkCA [(0, mkRC 0 0 (KActive (mkCK 5 (mkCert 5 255 60) false)) [] [] [] [] [])] [0] [(2, mkChild false [] [])] 1.
+  Definition evs_child : list event := [EChildUpdated 2].
+  Definition s_par : sys ca_state event objects :=
+    mkSys ca_state event objects (empty_store ca_state event) [(0, OCur (os_create 5 90000%Z))] [(SYNC_PARENT, 2)] [].
+End Witness.
+
+Lemma witness_wf : wf ca_state event (Some Witness.ca0) ca_apply objects Witness.s0.
+Proof. unfold wf. simpl. apply empty_consistent. Qed.
+
+(** The trace of the ROA update, as the probe sees it on the real code (listener write, queue write,
+    command store): [ShObjects 2; ShTaskPut sync_repo_2; ShCommand 2]. *)
+Example witness_trace_shape :
+  trace_shape ca_state event (Some Witness.ca0) ca_apply objects (ca_listen Witness.env0 Witness.cn) (ca_pre 2) ca_post 2 Witness.s0 (OCommand Witness.evs)
+  = [ShObjects 2; ShTaskPut (SYNC_REPO, 2); ShCommand 2].
+Proof. vm_compute. reflexivity. Qed.
+
+(** ** The atomicity clause is refuted: a cut after the listener's writes and before the command store
+    leaves the ROA in the published-object store and a SyncRepo task in the queue for a command that is in no log. *)
+Example atomic_alike_witness :
+  exists s', Witness.cut 2 = Some s' /\
+    cmds ca_state event (s_log _ _ _ (crash _ _ _ s')) = [] /\
+    names_of (s_objs _ _ _ s') = [(0, [7])] /\ names_of (s_objs _ _ _ Witness.s0) = [(0, [])] /\
+    t_mem (s_pend _ _ _ s') (SYNC_REPO, 2) = true /\ t_mem (s_pend _ _ _ Witness.s0) (SYNC_REPO, 2) = false /\
+    recover ca_state event (Some Witness.ca0) ca_apply objects s' = initial ca_state (Some Witness.ca0).
+Proof. eexists. split; [vm_compute; reflexivity|]. vm_compute. repeat split; reflexivity. Qed.
+
+Theorem atomic_alike_refuted :
+  ~ atomic_alike_full ca_state event (Some Witness.ca0) ca_apply objects (ca_listen Witness.env0 Witness.cn) (ca_pre 2) ca_post.
+Proof.
+  intros H. destruct atomic_alike_witness as [s' [E [C [N1 [N0 _]]]]].
+  specialize (H Witness.s0 Witness.evs Witness.objs1 2%nat s' eq_refl E).
+  destruct H as [[_ [Ho _]]|[Hc _]].
+  - rewrite Ho in N1. rewrite N0 in N1. discriminate N1.
+  - rewrite C in Hc. discriminate Hc.
+Qed.
+
+(** ** Non-vacuity *)
+Example every_prefix_loads_nonvacuous :
+  length Witness.steps = 4%nat /\ forall n, (n <= 3)%nat -> exists s', Witness.cut n = Some s'.
+Proof.
+  split; [vm_compute; reflexivity|]. intros n Hn.
+  destruct n as [|[|[|[|n]]]]; try lia; eexists; vm_compute; reflexivity.
+Qed.
+
+Example ack_never_lost_nonvacuous :
+  exists s1, complete ca_state event (Some Witness.ca0) ca_apply objects (ca_listen Witness.env0 Witness.cn) (ca_pre 2) ca_post (OCommand Witness.evs) Witness.s0 = Some s1
+    /\ ca_listen Witness.env0 Witness.cn (s_objs _ _ _ Witness.s0) Witness.evs <> None.
+Proof. eexists. split; [vm_compute; reflexivity|]. vm_compute. discriminate. Qed.
+
+Example failed_write_invisible_nonvacuous :
+  cmd_index ca_state event objects (ca_pre 2) Witness.s0 Witness.evs = 2%nat /\
+  ca_listen Witness.env0 Witness.cn (s_objs _ _ _ Witness.s0) Witness.evs = Some Witness.objs1.
+Proof. split; vm_compute; reflexivity. Qed.
+
+(** The listener of ROA / ASPA / router-key updates can be run again on its own output: the published names
+    are the same (the object of the interrupted attempt is revoked and replaced). *)
+Example converges_after_resubmit_nonvacuous :
+  exists o2, ca_listen Witness.env0 Witness.cn Witness.objs1 Witness.evs = Some o2 /\ names_of o2 = names_of Witness.objs1
+    /\ (2 <= cmd_index ca_state event objects (ca_pre 2) Witness.s0 Witness.evs)%nat.
+Proof. eexists. split; [vm_compute; reflexivity|]. split; [vm_compute; reflexivity|vm_compute; lia]. Qed.
+
+Example atomic_alike_except_known_nonvacuous :
+  ~ Known ca_state event objects (ca_pre 2) Witness.s0 Witness.evs 0 /\ ~ Known ca_state event objects (ca_pre 2) Witness.s0 Witness.evs 3
+  /\ Known ca_state event objects (ca_pre 2) Witness.s0 Witness.evs 1.
+Proof. unfold Known. vm_compute. repeat split; lia. Qed.
+
+(** ** The listener is NOT idempotent for the key life cycle: after a cut between its write and the command
+    store of a key-roll activation, the same command can never be stored again - the listener refuses it
+    (publishing.rs:720-735 "published resource class in the wrong key state"), so the operation has no steps. *)
+Theorem keyroll_activation_not_resubmittable :
+  exists o' s',
+    ca_listen Witness.env0 Witness.cn (s_objs _ _ _ Witness.s_roll) Witness.evs_act = Some o' /\
+    run_cut ca_state event objects 1
+      (steps_of ca_state event (Some Witness.ca_roll) ca_apply objects (ca_listen Witness.env0 Witness.cn) (ca_pre 2) ca_post Witness.s_roll (OCommand Witness.evs_act))
+      Witness.s_roll = Some s' /\
+    cmds ca_state event (s_log _ _ _ s') = [] /\
+    forall sr, sr = s' \/ sr = crash _ _ _ s' ->
+      steps_of ca_state event (Some Witness.ca_roll) ca_apply objects (ca_listen Witness.env0 Witness.cn) (ca_pre 2) ca_post sr (OCommand Witness.evs_act) = [].
+Proof.
+  eexists. eexists. split; [vm_compute; reflexivity|]. split; [vm_compute; reflexivity|]. split; [reflexivity|].
+  intros sr [->| ->]; vm_compute; reflexivity.
+Qed.
+
+(** ** A failing queue store in the best-effort post-save step loses a recurring task: [schedule] deletes the
+    pending entry and then stores the new one (queue.rs:108-155); when that store fails after the command was
+    stored, the error is only logged (mq.rs:605-620) - the command is acknowledged, and the child's parent-sync
+    task is gone from the queue of the running daemon (it comes back only at the next start). *)
+Theorem failed_queue_store_loses_task :
+  exists s',
+    fail_at ca_state event objects 3
+      (steps_of ca_state event (Some Witness.ca_par) ca_apply objects (ca_listen Witness.env0 Witness.cn) (ca_pre 1) ca_post Witness.s_par (OCommand Witness.evs_child))
+      Witness.s_par = Some s' /\
+    cmds ca_state event (s_log _ _ _ s') = [SEvents Witness.evs_child] /\
+    t_mem (s_pend _ _ _ Witness.s_par) (SYNC_PARENT, 2) = true /\
+    t_mem (s_pend _ _ _ s') (SYNC_PARENT, 2) = false /\ t_mem (s_run _ _ _ s') (SYNC_PARENT, 2) = false.
+Proof. eexists. split; [vm_compute; reflexivity|]. vm_compute. repeat split; reflexivity. Qed.
+
+(** ** The publication server's change-set store: a snapshot followed by the deletion of the sets, cut
+    anywhere, loads the same revision (sets below the snapshot are ignored). *)
+Lemma wal_catch_up_stop f r sets : existsb (N.eqb r) sets = false -> wal_catch_up f r sets = r.
+Proof. intros H. destruct f; simpl; [reflexivity|rewrite H; reflexivity]. Qed.
+
+Lemma wal_dels_subset dels : forall w x, In x (w_sets (wal_run w (map WDel dels))) -> In x (w_sets w).
+Proof.
+  induction dels as [|d dels IH]; intros w x H; simpl in *; [assumption|].
+  apply IH in H. simpl in H. apply filter_In in H. tauto.
+Qed.
+
+Lemma wal_dels_snap dels : forall w, w_snap (wal_run w (map WDel dels)) = w_snap w.
+Proof. induction dels as [|d dels IH]; intros w; simpl; [reflexivity|]. rewrite IH. reflexivity. Qed.
+
+Lemma wal_after_snap w r dels : ~ In r (w_sets w) -> wal_load (wal_run (mkWal r (w_sets w)) (map WDel dels)) = r.
+Proof.
+  intros H. unfold wal_load. rewrite wal_dels_snap. cbn [w_snap].
+  apply wal_catch_up_stop. apply existsb_false. intros x Hx. apply wal_dels_subset in Hx. cbn [w_sets] in Hx.
+  apply N.eqb_neq. intros ->. contradiction.
+Qed.
+
+Theorem wal_snapshot_every_prefix_loads : forall w n,
+  ~ In (wal_load w) (w_sets w) ->
+  wal_load (wal_run w (firstn n (wal_snapshot_trace w))) = wal_load w.
+Proof.
+  intros w n H. destruct n as [|n]; [reflexivity|].
+  unfold wal_snapshot_trace. cbn [firstn]. rewrite firstn_map.
+  change (wal_run w (WSnap (wal_load w) :: map WDel (firstn n (w_sets w))))
+    with (wal_run (mkWal (wal_load w) (w_sets w)) (map WDel (firstn n (w_sets w)))).
+  apply wal_after_snap. exact H.
+Qed.
+
+(** ** The rsync tree switch at every cut (rsync.rs:72-175, repaired by e1f99c61) *)
+Definition rs_clean (cur : option N) : rsyncd := mkRs None cur None.
+
+(** At every cut of a write, [current] holds the old content, nothing (between the two renames) or the new. *)
+Theorem rsync_current_at_every_cut : forall c0 c1 n r',
+  rsync_run (rs_clean (Some c0)) (firstn n (rsync_write_trace (rs_clean (Some c0)) c1)) = Some r' ->
+  r_current r' = Some c0 \/ r_current r' = None \/ r_current r' = Some c1.
+Proof.
+  intros c0 c1 n r'. destruct n as [|[|[|[|n]]]]; simpl; rewrite ?firstn_nil; simpl; intros H; inv H; simpl; auto.
+Qed.
+
+(** Cut between the two renames: [current] is missing, but the next write repairs the tree. *)
+Theorem rsync_between_renames_heals : forall c0 c1 c2 r,
+  rsync_run (rs_clean (Some c0)) (firstn 2 (rsync_write_trace (rs_clean (Some c0)) c1)) = Some r ->
+  r_current r = None /\
+  exists r2, rsync_run r (rsync_write_trace r c2) = Some r2 /\ r_current r2 = Some c2 /\ r_old r2 = None.
+Proof. intros c0 c1 c2 r H. simpl in H. inv H. split; [reflexivity|]. eexists. simpl. split; [reflexivity|auto]. Qed.
+
+(** The repaired switch: after a cut ANYWHERE in a write (first write or a later one), the next write succeeds,
+    [current] holds the new content and the tree is clean again - so this holds for every sequence of cut and
+    completed writes. *)
+Theorem rsync_next_write_succeeds_after_any_cut : forall cur c1 c2 n r,
+  rsync_run (rs_clean cur) (firstn n (rsync_write_trace (rs_clean cur) c1)) = Some r ->
+  rsync_run r (rsync_write_trace r c2) = Some (rs_clean (Some c2)).
+Proof.
+  intros [c0|] c1 c2 n r; destruct n as [|[|[|[|n]]]]; simpl; rewrite ?firstn_nil; simpl; intros H; inv H; reflexivity.
+Qed.
+
+(** No cut of the repaired switch fails, from a clean tree or from any state a cut left behind. *)
+Theorem rsync_write_never_stuck : forall cur c1 c2 n m r,
+  rsync_run (rs_clean cur) (firstn n (rsync_write_trace (rs_clean cur) c1)) = Some r ->
+  rsync_run r (firstn m (rsync_write_trace r c2)) <> None.
+Proof.
+  intros [c0|] c1 c2 n m r; destruct n as [|[|[|[|n]]]]; simpl; rewrite ?firstn_nil; simpl; intros H; inv H;
+    destruct m as [|[|[|[|[|m]]]]]; simpl; rewrite ?firstn_nil; simpl; discriminate.
+Qed.
+
+(** Regression witness for the originally pinned switch (finding F11c, observed on the real code by the C08 cut
+    enumeration before the repair): a cut - or failing removal - after the second rename leaves [old] behind
+    and EVERY later write fails at its first rename (ENOTEMPTY). *)
+Theorem rsync_stuck_after_cut_pinned : forall c0 c1 r,
+  rsync_run (rs_clean (Some c0)) (firstn 3 (rsync_write_trace_pinned (rs_clean (Some c0)) c1)) = Some r ->
+  r_current r = Some c1 /\ r_old r = Some c0 /\ forall c2, rsync_run r (rsync_write_trace_pinned r c2) = None.
+Proof. intros c0 c1 r H. simpl in H. inv H. split; [reflexivity|]. split; [reflexivity|]. intros c2. reflexivity. Qed.
